@@ -43,7 +43,7 @@ def bcm_proof():
 
 _unc_lower = lambda e: '((%s) >= 65 && (%s) <= 90 ? (char)((%s) + 32) : (%s))' % (e, e, e, e)
 L_bcf = [dict(fn='backup_copy_file', id=0, vars=['i', 'buffer', 'md5_str_in'], assigns='i, __CPROVER_object_whole(md5_str_in)',
-              inv='i >= 0 && i <= g_N && (0 < i ==> md5_str_in[0] == unc_lower_m(buffer[0])) && (1 < i ==> md5_str_in[1] == unc_lower_m(buffer[1])) && (2 < i ==> md5_str_in[2] == unc_lower_m(buffer[2])) && (3 < i ==> md5_str_in[3] == unc_lower_m(buffer[3])) && (4 < i ==> md5_str_in[4] == unc_lower_m(buffer[4])) && (5 < i ==> md5_str_in[5] == unc_lower_m(buffer[5])) && (6 < i ==> md5_str_in[6] == unc_lower_m(buffer[6])) && (7 < i ==> md5_str_in[7] == unc_lower_m(buffer[7])) && (8 < i ==> md5_str_in[8] == unc_lower_m(buffer[8])) && (9 < i ==> md5_str_in[9] == unc_lower_m(buffer[9])) && (10 < i ==> md5_str_in[10] == unc_lower_m(buffer[10])) && (11 < i ==> md5_str_in[11] == unc_lower_m(buffer[11])) && (12 < i ==> md5_str_in[12] == unc_lower_m(buffer[12])) && (13 < i ==> md5_str_in[13] == unc_lower_m(buffer[13])) && (14 < i ==> md5_str_in[14] == unc_lower_m(buffer[14])) && (15 < i ==> md5_str_in[15] == unc_lower_m(buffer[15])) && (16 < i ==> md5_str_in[16] == unc_lower_m(buffer[16])) && (17 < i ==> md5_str_in[17] == unc_lower_m(buffer[17])) && (18 < i ==> md5_str_in[18] == unc_lower_m(buffer[18])) && (19 < i ==> md5_str_in[19] == unc_lower_m(buffer[19])) && (20 < i ==> md5_str_in[20] == unc_lower_m(buffer[20])) && (21 < i ==> md5_str_in[21] == unc_lower_m(buffer[21])) && (22 < i ==> md5_str_in[22] == unc_lower_m(buffer[22])) && (23 < i ==> md5_str_in[23] == unc_lower_m(buffer[23])) && (24 < i ==> md5_str_in[24] == unc_lower_m(buffer[24])) && (25 < i ==> md5_str_in[25] == unc_lower_m(buffer[25])) && (26 < i ==> md5_str_in[26] == unc_lower_m(buffer[26])) && (27 < i ==> md5_str_in[27] == unc_lower_m(buffer[27])) && (28 < i ==> md5_str_in[28] == unc_lower_m(buffer[28])) && (29 < i ==> md5_str_in[29] == unc_lower_m(buffer[29])) && (30 < i ==> md5_str_in[30] == unc_lower_m(buffer[30])) && (31 < i ==> md5_str_in[31] == unc_lower_m(buffer[31])) && (i == 0 ==> md5_str_in[0] == 0)'.replace('unc_lower_m(', 'UNC_LOWER('), decreases='33 - i')]
+              inv='i >= 0 && i <= g_N && i <= 32 && (0 < i ==> md5_str_in[0] == unc_lower_m(buffer[0])) && (1 < i ==> md5_str_in[1] == unc_lower_m(buffer[1])) && (2 < i ==> md5_str_in[2] == unc_lower_m(buffer[2])) && (3 < i ==> md5_str_in[3] == unc_lower_m(buffer[3])) && (4 < i ==> md5_str_in[4] == unc_lower_m(buffer[4])) && (5 < i ==> md5_str_in[5] == unc_lower_m(buffer[5])) && (6 < i ==> md5_str_in[6] == unc_lower_m(buffer[6])) && (7 < i ==> md5_str_in[7] == unc_lower_m(buffer[7])) && (8 < i ==> md5_str_in[8] == unc_lower_m(buffer[8])) && (9 < i ==> md5_str_in[9] == unc_lower_m(buffer[9])) && (10 < i ==> md5_str_in[10] == unc_lower_m(buffer[10])) && (11 < i ==> md5_str_in[11] == unc_lower_m(buffer[11])) && (12 < i ==> md5_str_in[12] == unc_lower_m(buffer[12])) && (13 < i ==> md5_str_in[13] == unc_lower_m(buffer[13])) && (14 < i ==> md5_str_in[14] == unc_lower_m(buffer[14])) && (15 < i ==> md5_str_in[15] == unc_lower_m(buffer[15])) && (16 < i ==> md5_str_in[16] == unc_lower_m(buffer[16])) && (17 < i ==> md5_str_in[17] == unc_lower_m(buffer[17])) && (18 < i ==> md5_str_in[18] == unc_lower_m(buffer[18])) && (19 < i ==> md5_str_in[19] == unc_lower_m(buffer[19])) && (20 < i ==> md5_str_in[20] == unc_lower_m(buffer[20])) && (21 < i ==> md5_str_in[21] == unc_lower_m(buffer[21])) && (22 < i ==> md5_str_in[22] == unc_lower_m(buffer[22])) && (23 < i ==> md5_str_in[23] == unc_lower_m(buffer[23])) && (24 < i ==> md5_str_in[24] == unc_lower_m(buffer[24])) && (25 < i ==> md5_str_in[25] == unc_lower_m(buffer[25])) && (26 < i ==> md5_str_in[26] == unc_lower_m(buffer[26])) && (27 < i ==> md5_str_in[27] == unc_lower_m(buffer[27])) && (28 < i ==> md5_str_in[28] == unc_lower_m(buffer[28])) && (29 < i ==> md5_str_in[29] == unc_lower_m(buffer[29])) && (30 < i ==> md5_str_in[30] == unc_lower_m(buffer[30])) && (31 < i ==> md5_str_in[31] == unc_lower_m(buffer[31])) && (i == 0 ==> md5_str_in[0] == 0)'.replace('unc_lower_m(', 'UNC_LOWER(') + ''.join(' && (%d >= i ==> md5_str_in[%d] == 0)' % (k, k) for k in range(33)), decreases='33 - i')]
 
 
 def bcf_proof():
